@@ -52,6 +52,9 @@ CLAIMED["C19"] = ("E-math", "cnl::sqrt on built-in integers (8/16-bit exhaustive
 CLAIMED["C20"] = ("E-math", "cnl::exp2 over every scaled_integer format with an 8..32-bit rep and at least one integer bit: 8/16-bit reps exhaustively, 32-bit on a seeded stride, dense windows and random inputs; results logged and compared offline with floor(2^x/2^E) from a 256-bit fixed-point "
                   "evaluation (integer square roots), exactness for integral x; all <numbers> constants for every (Rep 8..64 bit, exponent with room) compared with 80-digit values.", "DESIGN.md §4 C20",
                   "sanitizer-instrumented execution with an offline exact (256-bit fixed-point / 80-digit) checker over the recorded event log")
+CLAIMED["C12"] = ("E-native", "Generated kernels (9 wrapper nestings x 8 built-in types x 33 operator forms, frozen instantiable universe) compare every native-tag wrapper expression with the same built-in expression in the same binary - value and result type - "
+                  "on exhaustive 8-bit (thorough: 16-bit) operand pairs and boundary/random pairs for wider types, in the sanitizer build and in the suite's own -O2 -DNDEBUG build; plus the documented fixed-point kernels against shift-and-operate twins. "
+                  "Equivalence as compiled IR / over all 2^64 operand pairs is NOT claimed (out of reach of execution).", "DESIGN.md §4 C12 and §5", "differential execution against the built-in twin expression under sanitizers and in the release configuration")
 PLANNED = {}
 
 
